@@ -78,7 +78,7 @@ func runC07(c *Ctx) {
 			"(*" + pmT + ").collectExpired":  "background sweep: by design touches only the (concurrency-safe) datastore, never the cache or stopped",
 		},
 	}, "dht/records")
-	c.Check("accesses", 0, n >= 7, "at least 7 guarded accesses exist", "found "+itoa(n))
+	c.Check("accesses", 0, n >= 3, "at least 3 guarded accesses exist", "found "+itoa(n))
 	// the sweep really touches nothing but the datastore
 	{
 		f := c.Fn("(*" + pmT + ").collectExpired")
@@ -312,7 +312,7 @@ func runC07(c *Ctx) {
 				return true
 			}
 			s, ok := eng.Unparen(call.Fun).(*ast.SelectorExpr)
-			if !ok || s.Sel.Name != "Delete" || !eng.IsField(info, s.X, pmT+".dstore") {
+			if !ok || eng.NameOf(s.Sel) != "Delete" || !eng.IsField(info, s.X, pmT+".dstore") {
 				return true
 			}
 			dels++
